@@ -28,6 +28,12 @@ def jobs_for(tier, rng):
                      "injects": [{"v": gen.rand_values(rng, ns, vmax=rng.choice([4, 9, 40]))}
                                  for _ in range(n_inj)],
                      "tag": f"inst{k}"})
+    # at scale: more states than the default max_batch_size of 1024 (several batches with the default configuration)
+    for k in range(2 if tier == "quick" else 8):
+        m = gen.union(rng, rng.randint(560, 640), PD=rng.choice([2, 4]), na=2, ne=2, rmax=3, v0max=2, plain=k % 2 == 0)
+        jobs.append({"mdp": m, "kind": "VI", "gamma": GAMMAS[k % 3], "eps": [1, 6], "test": "span", "calls": [1],
+                     "mbs": rng.choice([1024, 1024, 500]),
+                     "injects": [{"v": gen.rand_values(rng, m["ns"], vmax=9)} for _ in range(2)], "tag": f"large{k}"})
     return jobs
 
 
